@@ -6,7 +6,7 @@
     (a) asks whether the model can produce that very log (mode A: acceptance by
         subset construction) -- tag 1 when it cannot, and
     (b) applies the property itself, as small deterministic monitors that do
-        not know the model, to the log -- tags 2..7, or 10+k inside a
+        not know the model, to the log -- tags 2..8, or 10+k inside a
         known-finding class. *)
 From Coq Require Import List Bool ZArith NArith Arith Lia.
 Import ListNotations.
@@ -166,11 +166,26 @@ Definition readded (tr : list event) : bool :=
 
 (** * Cases and verdicts *)
 
-Record tcase := { t_cfg : cfg; t_trace : list event }.
+(** * K7: backoff.  A timing observation outside the model (which has no
+      clock): for every MonitorError that is followed, in the same incarnation,
+      by another letter of the goroutine, the harness measures the time from
+      the return of that callback to that next letter, in microseconds.  Each
+      such gap must be at least the smallest delay the backoff policy can
+      produce (RetryBaseDelay * (1 - RetryRandomization)); timers never fire
+      early and load only lengthens gaps, so the bound is robust. *)
+
+Definition k_backoff (mingap : Z) (gaps : list Z) : bool := forallb (Z.leb mingap) gaps.
+
+Record tcase := { t_cfg : cfg; t_trace : list event; t_mingap : Z; t_gaps : list Z }.
 Definition case := list tcase.
 
+Definition mktg (creds : bool) (hops : nat) (timeout : bool) (mingap : Z) (gaps : list Z)
+           (tr : list event) : tcase :=
+  {| t_cfg := {| c_creds := creds; c_hops := hops; c_timeout := timeout |}; t_trace := tr;
+     t_mingap := mingap; t_gaps := gaps |}.
+
 Definition mkt (creds : bool) (hops : nat) (timeout : bool) (tr : list event) : tcase :=
-  {| t_cfg := {| c_creds := creds; c_hops := hops; c_timeout := timeout |}; t_trace := tr |}.
+  mktg creds hops timeout 0 [] tr.
 
 Definition k_tags (c : cfg) (tr : list event) : list N :=
   (if k_lang tr then [] else [2%N])
@@ -182,7 +197,8 @@ Definition k_tags (c : cfg) (tr : list event) : list N :=
       else if readded tr then [11%N] else [7%N]).
 
 Definition check_target (t : tcase) : list N :=
-  (if accepts (t_cfg t) (t_trace t) then [] else [1%N]) ++ k_tags (t_cfg t) (t_trace t).
+  (if accepts (t_cfg t) (t_trace t) then [] else [1%N]) ++ k_tags (t_cfg t) (t_trace t)
+  ++ (if k_backoff (t_mingap t) (t_gaps t) then [] else [8%N]).
 
 Fixpoint check_targets (i : nat) (ts : list tcase) : list (nat * N) :=
   match ts with
